@@ -30,6 +30,8 @@ const (
 	expressionPrecedenceUnknown expressionPrecedence = iota
 	// expressionPrecedenceTernary is the expressionPrecedence of
 	// - ConditionalExpression. right associative!
+	// - DestroyExpression. the operand extends as far as possible
+	// - AttachExpression. the base expression extends as far as possible
 	expressionPrecedenceTernary
 	// expressionPrecedenceLogicalOr is the expressionPrecedence of
 	// - BinaryExpression, with OperationOr
@@ -69,7 +71,6 @@ const (
 	// expressionPrecedenceUnaryPrefix is the expressionPrecedence of
 	// - UnaryExpression
 	// - CreateExpression
-	// - DestroyExpression
 	// - ReferenceExpression
 	expressionPrecedenceUnaryPrefix
 	// expressionPrecedenceUnaryPostfix is the expressionPrecedence of
@@ -92,7 +93,6 @@ const (
 	// - IdentifierExpression
 	// - FunctionExpression
 	// - PathExpression
-	// - AttachExpression
 	expressionPrecedenceLiteral
 )
 
